@@ -111,6 +111,8 @@ def flatten(module, fname, depth=0, seen=()):
 
 
 def check(ctx):
+    from .c19 import change_assigns_every_field
+    change_assigns_every_field(ctx, "T2-stored")
     bm = ctx.repo.mod("building")
     gm = ctx.repo.mod("globaling")
     ctx.use(bm)
